@@ -757,3 +757,220 @@ Qed.
 
 Lemma run_inv W h : wf_world W -> Inv W (run_reg W h) (run_led h).
 Proof. intros HW. apply fold_inv; auto. apply inv_empty. Qed.
+
+(* ================================================================== the walk *)
+Lemma subs_walk_spec W m prefix specs exts :
+  subs_walk W m prefix specs exts
+  = flat_map (fun rq => flat_map (fun e => leaf m (prefix ++ rq, e)) (rev exts)) (req_seq W specs).
+Proof.
+  revert prefix. induction specs as [|s rest IH]; intros prefix; cbn [subs_walk req_seq].
+  - cbn [flat_map]. rewrite !app_nil_r. reflexivity.
+  - rewrite flat_map_flat_map. apply flat_map_ext. intros x.
+    rewrite IH, flat_map_map. apply flat_map_ext. intros rq. rewrite <- app_assoc. reflexivity.
+Qed.
+
+Lemma uncached_flat W ro required p :
+  uncached_subscriptions W ro required p
+  = flat_map (fun r => uncached_subscriptions W [r] required p) (rev ro).
+Proof.
+  unfold uncached_subscriptions. apply flat_map_ext. intros r. cbn [rev app flat_map].
+  rewrite app_nil_r. reflexivity.
+Qed.
+
+Definition answer_of (W : world) (L : ledger) (pord : list (option spec)) (required : list spec) : list value :=
+  flat_map (fun rq => flat_map (fun q => lvals L (rq, q)) pord) (req_seq W required).
+
+Lemma reg_answer_spec W r L required p : Inv W r L ->
+  uncached_subscriptions W [r] required p = answer_of W L (pord_of r p) required.
+Proof.
+  intros I. unfold uncached_subscriptions, answer_of. cbn [rev app flat_map]. rewrite app_nil_r.
+  assert (Hl : forall k, leaf (subscribers r) k = lvals L k).
+  { intros k. rewrite <- sub_leaf_leaf. apply (inv_leaf _ _ _ I). }
+  destruct p as [p'|]; cbn [pord_of].
+  - unfold ext_get. destruct (aget Nat.eqb (extendors r) p') as [exts|].
+    + rewrite subs_walk_spec. apply flat_map_ext. intros rq. apply flat_map_ext. intros q. apply Hl.
+    + cbn [map rev flat_map]. rewrite flat_map_nil. reflexivity.
+  - rewrite subs_walk_spec. apply flat_map_ext. intros rq. apply flat_map_ext. intros q. apply Hl.
+Qed.
+
+(* ---- tagged ledger *)
+Lemma map_snd_combine {A B} (la : list A) (lb : list B) :
+  length la = length lb -> map snd (combine la lb) = lb.
+Proof.
+  revert lb. induction la as [|a la IH]; intros [|b lb]; cbn; try discriminate; auto.
+  intros [= H]. rewrite IH; auto.
+Qed.
+
+Lemma map_snd_tag L : map snd (tag L) = L.
+Proof. apply map_snd_combine. apply seq_length. Qed.
+
+Lemma bucket_vals L k : map t_val (bucket (tag L) k) = lvals L k.
+Proof.
+  unfold bucket, lvals.
+  transitivity (map snd (map snd (filter (fun te : nat * entry => skey_eqb (fst (snd te)) k) (tag L)))).
+  { symmetry. apply map_map. }
+  rewrite (map_filter_snd (fun e : entry => skey_eqb (fst e) k)). rewrite map_snd_tag. reflexivity.
+Qed.
+
+Lemma expected_vals W L pord required :
+  map t_val (expected_tagged W L pord required) = answer_of W L pord required.
+Proof.
+  unfold expected_tagged, answer_of. rewrite map_flat_map. apply flat_map_ext. intros rq.
+  rewrite map_flat_map. apply flat_map_ext. intros q. apply bucket_vals.
+Qed.
+
+Lemma applicable_vals W L required p :
+  map t_val (filter (fun te => applicable W required p (snd te)) (tag L))
+  = map snd (filter (applicable W required p) L).
+Proof.
+  transitivity (map snd (map snd (filter (fun te : nat * entry => applicable W required p (snd te)) (tag L)))).
+  { symmetry. apply map_map. }
+  rewrite (map_filter_snd (applicable W required p)). rewrite map_snd_tag. reflexivity.
+Qed.
+
+(* ================================================================== multiset *)
+Lemma bool_eq_iff (a b : bool) : (a = true <-> b = true) -> a = b.
+Proof. destruct a, b; intros [H1 H2]; auto; symmetry; auto. Qed.
+
+Lemma bucket_perm {A} (key : A -> skey) (ks : list skey) (TL : list A) : NoDup ks ->
+  Permutation (flat_map (fun k => filter (fun x => skey_eqb (key x) k) TL) ks)
+              (filter (fun x => existsb (skey_eqb (key x)) ks) TL).
+Proof.
+  induction 1 as [|k ks Hk Hn IH]; cbn [flat_map existsb].
+  - rewrite filter_none; auto.
+  - apply Permutation_sym. eapply Permutation_trans.
+    + apply (filter_or_perm (fun x => skey_eqb (key x) k) (fun x => existsb (skey_eqb (key x)) ks)).
+      intros x _ E. apply skey_eqb_eq in E. rewrite E.
+      destruct (existsb (skey_eqb k) ks) eqn:Ex; auto. exfalso.
+      apply existsb_exists in Ex. destruct Ex as (k' & Hin & E'). apply skey_eqb_eq in E'. subst. auto.
+    + apply Permutation_app_head. apply Permutation_sym. exact IH.
+Qed.
+
+Definition walk_keys (W : world) (pord : list (option spec)) (required : list spec) : list skey :=
+  flat_map (fun rq => map (pair rq) pord) (req_seq W required).
+
+Lemma expected_as_buckets W L pord required :
+  expected_tagged W L pord required = flat_map (bucket (tag L)) (walk_keys W pord required).
+Proof.
+  unfold expected_tagged, walk_keys. rewrite flat_map_flat_map. apply flat_map_ext. intros rq.
+  rewrite flat_map_map. reflexivity.
+Qed.
+
+Lemma req_seq_NoDup W required : wf_world W -> NoDup (req_seq W required).
+Proof.
+  intros HW. induction required as [|s rest IH]; cbn [req_seq].
+  - constructor; [intros []|constructor].
+  - apply (NoDup_prod cons); auto.
+    + intros a b a' b' E. inversion E; auto.
+    + apply NoDup_rev, HW.
+Qed.
+
+Lemma walk_keys_NoDup W pord required : wf_world W -> NoDup pord -> NoDup (walk_keys W pord required).
+Proof.
+  intros HW Hp. unfold walk_keys. apply (NoDup_prod pair); auto.
+  - intros a b a' b' E. inversion E; auto.
+  - apply req_seq_NoDup; auto.
+Qed.
+
+Lemma req_seq_In W required rq : In rq (req_seq W required) <-> req_applicable W required rq = true.
+Proof.
+  revert rq. induction required as [|s rest IH]; intros rq; cbn [req_seq req_applicable].
+  - destruct rq; cbn; split; auto; try discriminate. intros [H|[]]. discriminate.
+  - rewrite in_flat_map. split.
+    + intros (x & Hx & H). apply in_map_iff in H. destruct H as (rq' & <- & H).
+      apply in_rev in Hx. apply andb_true_iff. split; [apply mem_In; auto|apply IH; auto].
+    + destruct rq as [|x rq']; [discriminate|]. rewrite andb_true_iff. intros [H1 H2].
+      exists x. split; [apply in_rev; rewrite rev_involutive; apply mem_In; auto|].
+      apply in_map. apply IH; auto.
+Qed.
+
+Lemma In_len_pos {A} (x : A) l : In x l -> 0 < length l.
+Proof. destruct l; cbn; [tauto|lia]. Qed.
+
+Lemma lcount_pos (L : ledger) e q : In e L -> snd (fst e) = Some q -> 0 < lcount L q.
+Proof.
+  intros H E. unfold lcount.
+  assert (Hin : In e (filter (fun e0 : entry => ospec_eqb (snd (fst e0)) (Some q)) L)).
+  { apply filter_In. split; auto. rewrite E. apply ospec_eqb_eq; auto. }
+  exact (In_len_pos _ _ Hin).
+Qed.
+
+Definition asked_ok (W : world) (p : option spec) : Prop :=
+  match p with Some p' => w_iface W p' = true | None => True end.
+
+Lemma pord_In W r L p e : Inv W r L -> asked_ok W p -> In e L ->
+  (In (snd (fst e)) (pord_of r p) <-> prov_applicable W p (snd (fst e)) = true).
+Proof.
+  intros I Hp He. destruct p as [p'|]; cbn [pord_of prov_applicable].
+  - rewrite <- in_rev, in_map_iff. destruct (inv_ext _ _ _ I) as (_ & _ & Hi).
+    destruct (snd (fst e)) as [q|] eqn:Eq.
+    + split.
+      * intros (q' & [= ->] & H). apply Hi in H. destruct H as [_ H]. unfold iro in H.
+        apply filter_In in H. apply mem_In. tauto.
+      * intros H. exists q. split; auto. apply Hi. split.
+        -- pose proof (inv_cnt _ _ _ I q). pose proof (lcount_pos L e q He Eq). lia.
+        -- unfold iro. apply filter_In. split; [apply mem_In; auto|exact Hp].
+    + split; [intros (q' & H & _); discriminate|discriminate].
+  - destruct (snd (fst e)); cbn; split; auto; try discriminate. intros [H|[]]; discriminate.
+Qed.
+
+Lemma pord_NoDup W r L p : Inv W r L -> NoDup (pord_of r p).
+Proof.
+  intros I. destruct p as [p'|]; cbn [pord_of].
+  - apply NoDup_rev. destruct (inv_ext _ _ _ I) as (_ & Hn & _). specialize (Hn p').
+    induction Hn as [|x l Hx Hn IH]; cbn; constructor; auto.
+    rewrite in_map_iff. intros (y & [= ->] & Hy). auto.
+  - constructor; [intros []|constructor].
+Qed.
+
+Lemma walk_keys_applicable W r L required p e : Inv W r L -> asked_ok W p -> In e L ->
+  existsb (skey_eqb (fst e)) (walk_keys W (pord_of r p) required) = applicable W required p e.
+Proof.
+  intros I Hp He. apply bool_eq_iff. unfold applicable. rewrite andb_true_iff, existsb_exists.
+  rewrite <- (pord_In W r L p e I Hp He), <- req_seq_In. unfold walk_keys. split.
+  - intros (k & Hk & E). apply skey_eqb_eq in E. subst k. apply in_flat_map in Hk.
+    destruct Hk as (rq & Hrq & Hk). apply in_map_iff in Hk. destruct Hk as (q & E & Hq).
+    rewrite <- E. cbn. auto.
+  - intros [H1 H2]. exists (fst e). split; [|apply skey_eqb_refl].
+    apply in_flat_map. exists (fst (fst e)). split; auto. apply in_map_iff. exists (snd (fst e)).
+    split; auto. destruct (fst e); auto.
+Qed.
+
+(* one registry: the bucket-sorted answer is a rearrangement of the applicable tagged entries *)
+Lemma expected_perm W r L required p : wf_world W -> Inv W r L -> asked_ok W p ->
+  Permutation (expected_tagged W L (pord_of r p) required)
+              (filter (fun te => applicable W required p (snd te)) (tag L)).
+Proof.
+  intros HW I Hp. rewrite expected_as_buckets. unfold bucket.
+  eapply Permutation_trans.
+  - apply (bucket_perm (fun te : nat * entry => fst (snd te))).
+    apply walk_keys_NoDup; auto. eapply pord_NoDup; eauto.
+  - rewrite (filter_ext_in' _ (fun te => applicable W required p (snd te))); auto.
+    intros te Hte. apply (walk_keys_applicable W r L); auto.
+    unfold tag in Hte. destruct te as [i e]. apply in_combine_r in Hte. exact Hte.
+Qed.
+
+Lemma Permutation_flat_map_pointwise {A B} (f g : A -> list B) l :
+  (forall x, In x l -> Permutation (f x) (g x)) -> Permutation (flat_map f l) (flat_map g l).
+Proof.
+  induction l as [|a l IH]; cbn; intros H; auto. apply Permutation_app; auto.
+Qed.
+
+Lemma reg_multiset W r L required p : wf_world W -> Inv W r L -> asked_ok W p ->
+  Permutation (uncached_subscriptions W [r] required p) (map snd (filter (applicable W required p) L)).
+Proof.
+  intros HW I Hp. rewrite (reg_answer_spec W r L) by auto.
+  rewrite <- expected_vals, <- applicable_vals. apply Permutation_map. apply (expected_perm W r L); auto.
+Qed.
+
+Lemma subs_multiset_lemma : forall W, wf_world W ->
+  forall (hs : list (list sop)) required p, asked_ok W p ->
+  Permutation (uncached_subscriptions W (map (run_reg W) hs) required p)
+              (flat_map (fun h => map snd (filter (applicable W required p) (run_led h))) hs).
+Proof.
+  intros W HW hs required p Hp. rewrite uncached_flat, <- map_rev, flat_map_map.
+  eapply Permutation_trans.
+  - apply Permutation_flat_map_pointwise. intros h _. apply (reg_multiset W _ (run_led h)); auto.
+    apply run_inv; auto.
+  - apply Permutation_flat_map. apply Permutation_sym, Permutation_rev.
+Qed.
